@@ -1099,9 +1099,11 @@ HINT_GUARD_TARGETS = [
     ("wormhole._hints", None, "describe_hint_obj"),
     ("wormhole.transit", "Common", "add_connection_hints"),
     ("wormhole.transit", "Common", "_connect"),
+    ("wormhole.transit", "Common", "_start_connector"),
     ("wormhole._dilation.manager", "Manager", "use_hints"),
     ("wormhole._dilation.connector", "Connector", "_use_hints"),
     ("wormhole._dilation.connector", "Connector", "_schedule_connection"),
+    ("wormhole._dilation.connector", "Connector", "_connect"),
 ]
 
 
@@ -1144,6 +1146,9 @@ class _Guards(ast.NodeVisitor):
             self.out.append("call " + ast.unparse(node))
         elif isinstance(node.func, ast.Attribute) and node.func.attr == "msg":
             return  # log.msg(f"...{hint!r}"): formatting with !r never raises
+        elif isinstance(node.func, ast.Attribute) and node.func.attr in ("addCallback", "addErrback", "addCallbacks", "addBoth"):
+            # what is chained onto a contender's Deferred decides whether a failed attempt stays a failure
+            self.out.append("chain " + ast.unparse(node))
         self.generic_visit(node)
 
     def visit_Subscript(self, node):
